@@ -42,11 +42,17 @@ type VerifQueueState struct {
 	Registered   int
 	PendingTotal int
 	ConnNil      bool
+	// Busy: the service's lock was taken (by a goroutine the simulator has
+	// parked while it holds it); nothing was read.
+	Busy bool
 }
 
-// VerifQueueState returns a snapshot of the queue state.
+// VerifQueueState returns a snapshot of the queue state. It is called by the
+// simulator's scheduler goroutine, which must never wait for a lock.
 func (s *Service) VerifQueueState() VerifQueueState {
-	s.mu.Lock()
+	if !s.mu.TryLock() {
+		return VerifQueueState{Busy: true}
+	}
 	defer s.mu.Unlock()
 	st := VerifQueueState{
 		State:      s.state,
